@@ -3,4 +3,5 @@ import TgModel.Props.C01
 import TgModel.Props.C02
 import TgModel.Props.C10
 import TgModel.Props.C15
+import TgModel.Props.C16
 import TgModel.Props.C20
